@@ -29,7 +29,7 @@ use arrow_buffer::{
     ScalarBuffer, ToByteSlice,
 };
 use arrow_data::transform::MutableArrayData;
-use arrow_data::{ArrayData, ByteView};
+use arrow_data::{ArrayData, ByteView, MAX_INLINE_VIEW_LEN};
 use arrow_schema::{ArrowError, DataType};
 use std::fmt::{Debug, Formatter};
 use std::hash::Hash;
@@ -753,20 +753,22 @@ impl<T: ByteViewType> ByteViewScalarImpl<T> {
                 let true_count = predicate.count_set_bits();
                 let mut buffers: Vec<Buffer> = truthy_buffers.to_vec();
 
-                // If the falsy buffers are empty, we can use the falsy view as it is, because the value
-                // is completely inlined. Otherwise, we have non-inlined values in the buffer, and we need
-                // to recalculate the falsy view
-                let view_falsy = if falsy_buffers.is_empty() {
-                    falsy_view
-                } else {
-                    let byte_view_falsy = ByteView::from(falsy_view);
-                    let new_index_falsy_buffers =
-                        buffers.len() as u32 + byte_view_falsy.buffer_index;
-                    buffers.extend(falsy_buffers.iter().cloned());
-                    let byte_view_falsy =
-                        byte_view_falsy.with_buffer_index(new_index_falsy_buffers);
-                    byte_view_falsy.as_u128()
-                };
+                // If the falsy value is completely inlined, we can use the falsy view as it is (an
+                // inlined view has no buffer index, even when its array carries data buffers).
+                // Otherwise, we have non-inlined values in the buffer, and we need to recalculate
+                // the falsy view
+                let view_falsy =
+                    if falsy_buffers.is_empty() || (falsy_view as u32) <= MAX_INLINE_VIEW_LEN {
+                        falsy_view
+                    } else {
+                        let byte_view_falsy = ByteView::from(falsy_view);
+                        let new_index_falsy_buffers =
+                            buffers.len() as u32 + byte_view_falsy.buffer_index;
+                        buffers.extend(falsy_buffers.iter().cloned());
+                        let byte_view_falsy =
+                            byte_view_falsy.with_buffer_index(new_index_falsy_buffers);
+                        byte_view_falsy.as_u128()
+                    };
 
                 let total_number_of_bytes = true_count * 16 + (predicate.len() - true_count) * 16;
                 let mut mutable = MutableBuffer::new(total_number_of_bytes);
